@@ -68,6 +68,8 @@ def c15_rf19(run):
     rf_callmode.rf19c(run)
     rf_callmode.rf19d(run)
     rf_tables.rf19e(run)
+    rf_callmode.rf81(run)
+    run.min_instances('RF81', 10)
 
 
 def c15_rf16h(run):
@@ -167,6 +169,8 @@ def c11_vocab(run):
     run.min_instances('RF7j', 8)
     rf_vocab.rf7k(run)
     rf_vocab.rf75(run)
+    rf_vocab.rf82(run)
+    run.min_instances('RF82', 40)
 
 
 def c10_vocab(run):
